@@ -78,9 +78,20 @@ def _mk(check, seed, run, engine, prob, ops, rng):
     for op in ops:
         if op.get("knobs") is not None:
             _fix_knobs(op["knobs"], prob["family"])
+    rng_seed = int(rng.integers(1 << 31))
+    storage = prob["storage"]
+    # how a CSC matrix is *stored* is part of the storage dimension: 64-bit index arrays,
+    # unsorted row indices, explicitly stored zeros (one variant per plan)
+    variant = choice(rng, ["csc", "csc64", "csc_unsorted", "csc_zeros"], p=[.55, .15, .15, .15])
+    if variant != "csc":
+        for op in ops:
+            if op.get("storage") == "csc":
+                op["storage"] = variant
+        if storage == "csc":
+            storage = variant
     return dict(check=check, seed=int(seed), run=int(run), engine=engine,
-                rng_seed=int(rng.integers(1 << 31)), family=prob["family"], data=prob["data"],
-                storage=prob["storage"], ops=ops)
+                rng_seed=rng_seed, family=prob["family"], data=prob["data"],
+                storage=storage, ops=ops)
 
 
 _FORCED = {"entry": None}
@@ -351,6 +362,22 @@ def plan_C16(seed, run, engine):
     solver = entry[0]
     fi, p = prob["fi"], _p(prob)
     fam = prob["family"]
+    centred = False
+    if variant in ("MCP", "MCP+", "WMCP", "BMCP") and fam["datafit"] in ("Quadratic", "Logistic",
+                                                                       "QuadraticMultiTask") \
+            and rng.random() < 0.5:
+        # the non-convex corner of C16: exactly centred columns (the gradient at the null model
+        # then does not depend on the intercept, so a cold start can never legitimately leave
+        # zero above the critical strength) and a gamma drawn without regard to the step range
+        # gamma > weight_j / L_j - the property does not restrict gamma, and gamma = 3 with
+        # L_j = 1/4 (logistic loss, standardised columns) is ordinary use
+        Xc = np.asarray(prob["data"]["X"], dtype=float)
+        Xc = Xc - Xc.mean(axis=0)
+        Xc = Xc - Xc.mean(axis=0)
+        prob["data"]["X"] = Xc.tolist()
+        fam["pargs"]["gamma"] = float(choice(rng, [1.2, 2.0, 3.0, 10.0]))
+        fam["alpha_max_rm"] = G.reference_alpha_max(fam, prob["data"], fi)
+        centred = True
     amax = fam.get("alpha_max_rm") or 0.0
     if amax <= 0:
         amax = 1.0
@@ -374,6 +401,10 @@ def plan_C16(seed, run, engine):
     ops = []
     route = choice(rng, ["cold", "warm_small_alpha", "path_cross", "crash_restart"],
                    p=[.35, .3, .2, .15])
+    if centred:
+        route = "cold"
+        if "ws_strategy" in k:
+            k["ws_strategy"] = "subdiff"
     if route == "warm_small_alpha" or (route == "path_cross" and solver not in PATH_SOLVERS):
         small = dict(alpha=float(amax * choice(rng, [0.05, 0.3])))
         target = fam["pargs"]["alpha"]
